@@ -4,5 +4,6 @@ CONSTANTS
   MaxArity = 2
   Stride = 3
   Offset = 0
+  Reduced = FALSE
 INVARIANT SigOK
 CHECK_DEADLOCK FALSE
